@@ -36,17 +36,23 @@ def naming_writes(prog: Program, resolver: Resolver, q: str) -> List[Write]:
                 tgt = n.targets[0]
             elif isinstance(n, (ast.AugAssign, ast.AnnAssign)):
                 tgt = n.target
-            recv = ast.unparse(tgt.value) if isinstance(tgt, ast.Attribute) else ""
-            if fi.name == "__init__" and recv == "self" and _is_plain_init_store(fi, n):
+            flat = list(tgt.elts) if isinstance(tgt, (ast.Tuple, ast.List)) else [tgt]
+            recvs = {ast.unparse(t.value) for t in flat if isinstance(t, ast.Attribute)}
+            if fi.name == "__init__" and recvs == {"self"} and _is_plain_init_store(fi, n):
                 continue
             out.append(w)
     return out
 
 
 def _is_plain_init_store(fi: FuncInfo, n: ast.AST) -> bool:
-    """self.name = name / self.names = tuple() in __init__ (initialising the new object)."""
+    """self.name = name / self.names = tuple() in __init__ (initialising the new object), also
+    as a tuple assignment `self.names, self.symbols = tuple(), tuple()`."""
+    def plain(v: Optional[ast.AST]) -> bool:
+        return isinstance(v, (ast.Name, ast.Constant)) or (isinstance(v, ast.Call) and ast.unparse(v.func) in ("tuple", "list") and not v.args)
     v = getattr(n, "value", None)
-    return isinstance(v, (ast.Name, ast.Constant)) or (isinstance(v, ast.Call) and ast.unparse(v.func) in ("tuple", "list") and not v.args)
+    if isinstance(v, (ast.Tuple, ast.List)):
+        return all(plain(x) for x in v.elts)
+    return plain(v)
 
 
 class Summary:
@@ -137,8 +143,26 @@ class Summary:
         return res
 
 
+def _conditions(fi: FuncInfo, node: ast.AST) -> List[Tuple[str, bool, ast.If]]:
+    """(test text, arm, If) of every enclosing `if` of node, outermost first."""
+    out: List[Tuple[str, bool, ast.If]] = []
+    child = node
+    p = getattr(node, "_parent", None)
+    while p is not None and p is not fi.node:
+        if isinstance(p, ast.If):
+            arm = any(child is x for x in p.body)
+            out.append((ast.unparse(p.test).replace(" ", ""), arm, p))
+        child = p
+        p = getattr(p, "_parent", None)
+    return list(reversed(out))
+
+
 def guarded_bindings(rep: Report, prog: Program, resolver: Resolver) -> None:
-    """R19.2: registry[k] = v is dominated by a raising test that k is unbound or bound to v."""
+    """R19.2: registry[k] = v is preceded, on every path that reaches it, by a raising test that k is
+    unbound or bound to v.  The test may name the registry through a local alias, use `k in reg and
+    reg[k] is not v` or `reg.get(k, v) is not v` (directly or through a local), and may sit under the
+    same condition as the store (`if name: <guard>` ... `if name: <store>`)."""
+    from ..effects import local_aliases, location_of
     n = 0
     for q, fi in prog.functions.items():
         if fi.module in ("hypothesis", "pytest"):
@@ -158,20 +182,53 @@ def guarded_bindings(rep: Report, prog: Program, resolver: Resolver) -> None:
             cfg = cfg or CFG(fi.node)
             dom = cfg.dominators()
             wn = cfg.node_of(node)
+            wconds = {(t, a) for t, a, _ in _conditions(fi, node)}
+            al = local_aliases(fi)
+            assigned_names = {x.id for st in ast.walk(fi.node) if isinstance(st, (ast.Assign, ast.AugAssign))
+                              for t in (st.targets if isinstance(st, ast.Assign) else [st.target]) for x in ast.walk(t) if isinstance(x, ast.Name) and isinstance(x.ctx, ast.Store)}
             ok = False
-            for t in cfg.stmt_nodes():
-                if t.kind != "test" or not isinstance(t.ast, ast.If) or wn is None or t.nid not in dom.get(wn, set()):
+            for g in ast.walk(fi.node):
+                if not (isinstance(g, ast.If) and g.body and isinstance(g.body[-1], ast.Raise)):
                     continue
-                tt = ast.unparse(t.ast.test).replace(" ", "")
-                regn = reg.replace(" ", "").split(".")[-1]
-                if f"{keytxt}in" in tt and regn in tt and t.ast.body and isinstance(t.ast.body[-1], ast.Raise):
+                if any(node is x for b in g.body for x in ast.walk(b)):
+                    continue
+                # what the test talks about, with locals expanded
+                exprs: List[ast.AST] = [g.test]
+                for x in ast.walk(g.test):
+                    if isinstance(x, ast.Name) and x.id in al and x.id not in fi.params():
+                        exprs += al[x.id]
+                names = {x.id for e in exprs for x in ast.walk(e) if isinstance(x, ast.Name)}
+                key_names = {x.id for x in ast.walk(tgt.slice) if isinstance(x, ast.Name)}
+                mentions_reg = any(location_of(prog, resolver, fi, x) == w.location for e in exprs for x in ast.walk(e)
+                                   if isinstance(x, (ast.Name, ast.Attribute)))
+                if not (mentions_reg and key_names and key_names <= names):
+                    continue
+                # position: the guard's outermost enclosing `if` dominates the store, and the guard runs under
+                # no condition the store does not also run under
+                gconds = _conditions(fi, g)
+                outer = gconds[0][2] if gconds else g
+                on = cfg.node_of(outer)
+                cond_ok = all((t, a) in wconds for t, a, _ in gconds) and not ({x for t, a, i in gconds for x in
+                              {y.id for y in ast.walk(i.test) if isinstance(y, ast.Name)}} & (assigned_names - set(al)))
+                if wn is not None and on is not None and on in dom.get(wn, set()) and cond_ok:
                     ok = True
-            # a guard in the (only) caller chain: define() checks before cls(...)
             rep.check("R19.2", f"{q}:{reg}[{keytxt}]", ok,
                       f"`{ast.unparse(node)}` binds {keytxt} without first rejecting a key already bound to another object: "
                       "a name or symbol can be silently rebound to a second object", fi.where(node))
     if n < 4:
         raise AnalysisError(f"only {n} registry bindings found (floor 4)")
+
+
+def _initialized_decider(value: bool):
+    """decide(test) for `if self._initialized:` / `if not self._initialized:` given the flag's value."""
+    def decide(t: ast.AST) -> Optional[bool]:
+        txt = ast.unparse(t).replace(" ", "")
+        if txt in ("self._initialized", "self._initializedisTrue"):
+            return value
+        if txt in ("notself._initialized", "self._initializedisFalse"):
+            return not value
+        return None
+    return decide
 
 
 def late_naming(rep: Report, prog: Program, resolver: Resolver, ev: Evaluator) -> Dict[str, bool]:
@@ -184,13 +241,17 @@ def late_naming(rep: Report, prog: Program, resolver: Resolver, ev: Evaluator) -
     handles: Dict[str, bool] = {}
     for cls in ("Prefix", "Dimension", "Unit"):
         fi = prog.func(f"{cls}.__init__")
-        early = [s for s in fi.node.body if isinstance(s, ast.If) and "_initialized" in ast.unparse(s.test)]
+        # what runs for an instance that is already initialised: does it look at name/symbol?
+        cfg = CFG(fi.node).pruned(_initialized_decider(True))
+        live = cfg.reachable(cfg.entry)
         ok = False
-        for s in early:
-            # inside the early-return arm: a use of the name/symbol parameters (register or reject)
-            used = {x.id for b in s.body for x in ast.walk(b) if isinstance(x, ast.Name)}
-            calls_or_stores = any(isinstance(x, (ast.Call, ast.Assign, ast.Raise)) for b in s.body for x in ast.walk(b))
-            if {"name", "symbol"} & used and calls_or_stores:
+        for nid in live:
+            nd = cfg.nodes[nid]
+            if nd.kind != "stmt" or nd.ast is None or isinstance(nd.ast, ast.Return):
+                continue
+            used = {x.id for x in ast.walk(nd.ast) if isinstance(x, ast.Name)}
+            acts = any(isinstance(x, (ast.Call, ast.Assign, ast.Raise)) for x in ast.walk(nd.ast))
+            if {"name", "symbol"} & used and acts:
                 ok = True
         handles[cls] = ok
         if cls in decl_classes:
@@ -219,11 +280,13 @@ def interned_construction(rep: Report, prog: Program, resolver: Resolver, summ: 
             rep.ok("R19.8", f"{cls}.__init__", note="not interned by __new__")
             continue
         fi = prog.func(f"{cls}.__init__")
-        cfg = CFG(fi.node)
-        dom = cfg.dominators()
+        # the paths a *fresh* instance takes (an initialised one was completed by an earlier call)
+        cfg = CFG(fi.node).pruned(_initialized_decider(False))
+        live = cfg.reachable(cfg.entry)
         stores: Dict[int, str] = {}
         for st in ast.walk(fi.node):
             tgts = st.targets if isinstance(st, ast.Assign) else ([st.target] if isinstance(st, (ast.AnnAssign, ast.AugAssign)) else [])
+            tgts = [x for t in tgts for x in (t.elts if isinstance(t, (ast.Tuple, ast.List)) else [t])]
             for t in tgts:
                 if isinstance(t, ast.Attribute) and isinstance(t.value, ast.Name) and t.value.id == "self":
                     n = cfg.node_of(st)
@@ -250,13 +313,10 @@ def interned_construction(rep: Report, prog: Program, resolver: Resolver, summ: 
             continue
         init_nodes = [n for n, v in stores.items() if "_initialized" in v.split(",")]
         must = cfg.must_before({n: set(v.split(",")) for n, v in stores.items()})
-        # the arm taken for an instance that an earlier, completed __init__ already built
-        built_arm = {id(x) for st in fi.node.body if isinstance(st, ast.If) and ast.unparse(st.test) in ("self._initialized", "self._initialized is True")
-                     for b in st.body for x in ast.walk(b)}
-        rnodes = [r for r in rnodes if id(r[1]) not in built_arm]
+        rnodes = [r for r in rnodes if r[0] in live]
         if not rnodes:
-            rep.ok("R19.7", f"{cls}.__init__", note="only the already-initialised arm can raise")
-            rep.ok("R19.8", f"{cls}.__init__", note="only the already-initialised arm can raise")
+            rep.ok("R19.7", f"{cls}.__init__", note="only the already-initialised path can raise")
+            rep.ok("R19.8", f"{cls}.__init__", note="only the already-initialised path can raise")
             continue
         for n, node, who in rnodes:
             have = must.get(n, set())
